@@ -48,6 +48,13 @@ def cases(draw):
         if rnd.pr.abs:
             tx, ty = rnd.target("in", draw(st.integers(0, 3)), draw(st.integers(0, 100)), draw(st.integers(0, 100)))
             prog.append(["g", "G1 X%s Y%s" % (gen.fmt(rnd.lx("x", tx)), gen.fmt(rnd.lx("y", ty)))])
+            if draw(st.integers(0, 30)) == 0:
+                # a very long stay in the region before the print ends: hundreds of suppressed commands, the deferred codes
+                # arriving around the 500th / 1000th of them, none of them repeated afterwards
+                stay = draw(st.sampled_from([494, 495, 496, 497, 994, 996]))
+                for q in range(stay):
+                    prog.append(["g", "G1 X%s Y%s" % (gen.fmt(rnd.lx("x", tx) + 0.001 * (q % 30)), gen.fmt(rnd.lx("y", ty) + 0.001 * (q // 30)))])
+                prog += [["g", "M117 nearly there"], ["g", "M73 P98"], ["g", "M204 S300"], ["g", "M205 X5"], ["g", "M117 the end"], ["g", "M73 P99"]]
             for _ in range(draw(st.integers(1, 3))):
                 prog.append(["g", draw(st.sampled_from(["M117 done soon", "M204 S400", "M204 T900", "M73 P99", "M106 S0", "G4 P10", "M205 X6"]))])
             k = draw(st.integers(0, 7))
